@@ -1192,8 +1192,14 @@ func (c *RaftCluster) SetStoreWeight(storeID uint64, leaderWeight, regionWeight 
 		return errs.ErrStoreNotFound.FastGenByArgs(storeID)
 	}
 
-	if err := c.storage.SaveStoreWeight(storeID, leaderWeight, regionWeight); err != nil {
+	// A failed change must not stay half written: put the weight entries back (best effort),
+	// otherwise a reload serves weights of a change that was reported as failed.
+	rollback := func(err error) error {
+		_ = c.storage.SaveStoreWeight(storeID, store.GetLeaderWeight(), store.GetRegionWeight())
 		return err
+	}
+	if err := c.storage.SaveStoreWeight(storeID, leaderWeight, regionWeight); err != nil {
+		return rollback(err)
 	}
 
 	newStore := store.Clone(
@@ -1201,7 +1207,10 @@ func (c *RaftCluster) SetStoreWeight(storeID uint64, leaderWeight, regionWeight 
 		core.SetRegionWeight(regionWeight),
 	)
 
-	return c.putStoreLocked(newStore)
+	if err := c.putStoreLocked(newStore); err != nil {
+		return rollback(err)
+	}
+	return nil
 }
 
 func (c *RaftCluster) putStoreLocked(store *core.StoreInfo) error {
